@@ -327,6 +327,19 @@ def mk():
         )
     return derive_closure, setx, derive_helper_closure
 derive_closure, setx, derive_helper_closure = mk()
+def mkb():
+    def hb1(q):
+        return hb2(q) + v
+    def derive_hb(s):
+        return s.Select(
+            lambda e: hb1(e.a)
+        )
+    def fix_hb():
+        nonlocal hb2
+        hb2 = (lambda q: q * 3)
+    return derive_hb, fix_hb
+    hb2 = None  # never reached: it makes hb2 a variable of mkb that has no value until fix_hb() gives it one
+derive_hb, fix_hb = mkb()
 def helper(q):
     return (q, v)
 def derive_helper(s):
@@ -371,6 +384,7 @@ class HWorld:
         self.consts = [[]]
         self.model = {"v": 1, "x": 100, "c": 10}
         self.alive = {"v": True}
+        self.fixed = False
         self.snap = [ast.dump(self.streams[0].query_ast)]
         self.last = None
 
@@ -383,10 +397,10 @@ class HModel:
     NEW = {"v": 2, "x": 200, "c": 20}
     ALL = ("derive-global", "derive-named", "derive-closure", "derive-class", "derive-helper", "derive-helper-closure")
     VAR = {"derive-global": "v", "derive-closure": "x", "derive-class": "c", "derive-named": "v", "derive-helper": "v",
-           "derive-helper-closure": "x"}
+           "derive-helper-closure": "x", "derive-hb": "v"}
 
-    def __init__(self, derives=ALL, delete=True):
-        self.derives, self.delete = tuple(derives), delete
+    def __init__(self, derives=ALL, delete=True, broken=False):
+        self.derives, self.delete, self.broken = tuple(derives), delete, broken
 
     def fresh(self):
         return HWorld()
@@ -398,6 +412,10 @@ class HModel:
                 if self.VAR[d] != "v" or w.alive["v"]:
                     ops.append((d, i))
             ops.append(("execute", i))
+            if self.broken and w.alive["v"]:
+                ops.append(("derive-hb", i))
+        if self.broken and not w.fixed:
+            ops.append(("fix-hb", 0))
         for var in sorted({self.VAR[d] for d in self.derives}):
             if var != "v" or w.alive["v"]:
                 ops.append(("rebind", var))
@@ -413,13 +431,23 @@ class HModel:
 
     def key(self, w):
         return explore.heap_key([s.query_ast for s in w.streams], [None] * len(w.streams), lambda v: "ds") + \
-            repr(sorted(w.model.items())) + repr(w.alive)
+            repr(sorted(w.model.items())) + repr(w.alive) + repr(w.fixed)
 
     def apply(self, w, op):
         kind, arg = op
         w.last = kind
         viol = []
-        if kind.startswith("derive"):
+        if kind == "fix-hb":
+            w.g["fix_hb"]()
+            w.fixed = True
+        elif kind == "derive-hb" and not w.fixed:
+            # the helper's helper has no value yet: the call has to fail (any exception), and must leave no trace
+            try:
+                w.g["derive_hb"](w.streams[arg])
+                viol.append({"kind": "derive-with-an-unset-helper-succeeded", "msg": f"{op}"})
+            except Exception:
+                w.last = "derive-hb-failed"
+        elif kind.startswith("derive"):
             fn = kind.replace("-", "_")
             var = self.VAR[kind]
             try:
